@@ -29,7 +29,14 @@ Cat == Catalogue(FMAXT) \o <<
   G("MultiLineString", <<<<<<1, 3>>, <<2, 3>>>>, <<<<4, 2>>, <<6, 2>>>>>>),
   G("BoundingBox", <<1, 0, 5, 3>>),
   G("TimeInterval", <<1, 5>>),
-  G("Point", <<3, 2>>) >>
+  G("Point", <<3, 2>>),
+  \* regions with interior rings, and geometries strictly inside / across the hole
+  G("MultiPolygon", <<<<<<<<0, 0>>, <<6, 0>>, <<6, 8>>, <<0, 8>>, <<0, 0>>>>, <<<<1, 1>>, <<5, 1>>, <<5, 7>>, <<1, 7>>, <<1, 1>>>>>>>>),
+  G("MultiPolygon", <<<<<<<<0, 0>>, <<3, 0>>, <<3, 4>>, <<0, 4>>, <<0, 0>>>>, <<<<1, 1>>, <<2, 1>>, <<2, 3>>, <<1, 3>>, <<1, 1>>>>>>,
+                      <<<<<<4, 0>>, <<6, 0>>, <<6, 2>>, <<4, 2>>, <<4, 0>>>>>>>>),
+  G("BoundingBox", <<2, 2, 4, 6>>),
+  G("Polygon", <<<<<<2, 2>>, <<4, 2>>, <<4, 6>>, <<2, 6>>, <<2, 2>>>>>>),
+  G("Polygon", <<<<<<0, 0>>, <<6, 0>>, <<6, 8>>, <<0, 8>>, <<0, 0>>>>, <<<<1, 1>>, <<5, 1>>, <<5, 7>>, <<1, 7>>, <<1, 1>>>>>>) >>
 
 Pairs == {<<i, j>> \in (1..Len(Cat)) \X (1..Len(Cat)) : i <= j /\ (i * Len(Cat) + j) % Stride = 0}
 Bufs(i, j) == BufPairs \cup (IF Cat[i].type \in AreaKinds /\ Cat[j].type \in AreaKinds THEN {<<0, 0>>} ELSE {})
@@ -45,10 +52,14 @@ FarCases == {[far |-> TRUE, i |-> p[1], j |-> p[2], tb |-> b[1], fb |-> b[2]] :
                 b \in BufPairs}
 GA(k) == IF k.far THEN Shift(Cat[k.i], FarPad) ELSE Cat[k.i]
 GB(k) == IF k.far THEN Shift(Cat[k.j], FarPad) ELSE Cat[k.j]
+\* where the two geometry objects of a session come from (0 constructed, 1 model_copy(update = coordinates) of a used
+\* geometry elsewhere, 2 the same by attribute assignment, 3 deep copy of a used geometry), spread over the sessions.
+\* The affinity is a function of the geometries as values: no clause depends on it.
+ProvOf(k) == <<(k.i + k.tb) % 4, (k.j + 2 * k.fb + 1) % 4>>
 Concrete(k) == IF k.far
                THEN [kind |-> "far", g1 |-> GA(k), g2 |-> GB(k), tb |-> k.tb, fb |-> k.fb,
-                     ds |-> [x \in DOMAIN FarBases |-> 0], bases |-> FarBases]
-               ELSE [kind |-> "lat", g1 |-> Cat[k.i], g2 |-> Cat[k.j], tb |-> k.tb, fb |-> k.fb, ds |-> Offsets]
+                     ds |-> [x \in DOMAIN FarBases |-> 0], bases |-> FarBases, prov |-> ProvOf(k)]
+               ELSE [kind |-> "lat", g1 |-> Cat[k.i], g2 |-> Cat[k.j], tb |-> k.tb, fb |-> k.fb, ds |-> Offsets, prov |-> ProvOf(k)]
 
 (* ---- Impl: the dispatch of compute_affinity ---- *)
 \* _prepare_geometry: BUFFER_GEOMETRY_TYPES are buffered (TimeStamp -> TimeInterval, the others -> (Multi)Polygon)
@@ -123,5 +134,19 @@ BoxLaws == BoxPair(g1.type, g2.type) =>
     /\ (a[3] < b[1] \/ b[3] < a[1]) => iu[1] = 0
     /\ \A d \in Ds : BoxIoU(Shift(g1, d).coordinates, Shift(g2, d).coordinates) = iu
     /\ iu[2] <= 32767                                              \* the validator's exact comparison stays in range
+RectLaws == RectPair(g1, g2) =>
+    LET iu == RectIoU(g1, g2) IN
+    /\ 0 <= iu[1] /\ iu[1] <= iu[2] /\ iu = RectIoU(g2, g1) /\ iu[2] <= 32767
+    /\ RectIoU(g1, g1)[1] = RectIoU(g1, g1)[2] /\ RectArea(g1) >= 0
+    /\ BoxPair(g1.type, g2.type) => iu = BoxIoU(g1.coordinates, g2.coordinates)
+    /\ \A d \in Ds : RectIoU(Shift(g1, d), Shift(g2, d)) = iu
+    \* a box strictly inside an interior ring does not intersect the region
+    /\ (g1.type = "BoundingBox" /\ \E h \in Range(Holes(g2)) :
+            h[1] < g1.coordinates[1] /\ g1.coordinates[3] < h[3] /\ h[2] < g1.coordinates[2] /\ g1.coordinates[4] < h[4]) => iu[1] = 0
+\* the catalogue does contain a region with a hole and a box strictly inside it (and one across it)
+ASSUME HoleCasesPresent ==
+    \E i, j \in 1..Len(Cat) : /\ Cat[i].type = "BoundingBox" /\ Cat[j].type = "MultiPolygon" /\ Holes(Cat[j]) # <<>>
+                               /\ RectPair(Cat[i], Cat[j]) /\ RectIoU(Cat[i], Cat[j])[1] = 0
+                               /\ TimeIoU(TimeExtent(Cat[i], FMAXT), TimeExtent(Cat[j], FMAXT))[1] > 0
 ExtentsInRange == \A r \in Readings, d \in Ds : TIoU(g1, g2, d, r)[2] <= 32767
 =============================================================================
